@@ -13,7 +13,18 @@ from cryptography.hazmat.primitives.asymmetric.ed25519 import Ed25519PrivateKey,
 def run(ctx):
     rng = ctx.rng
     n = 40 if ctx.quick else 1500
-    seeds = [bytes.fromhex(v[0]) for v in R.VECTORS] + [bytes(32), b"\xff" * 32, bytes(range(32))] + [rng.randbytes(32) for _ in range(n)]
+    import hashlib
+    # key material with bytes a text-minded reader would strip or translate: final / leading LF, CR, NUL, space, ^Z -- in the seed and in the derived public key
+    special = [b"\x07" * 31 + b"\n", b"\n" * 32, b"\r\n" + b"\x01" * 28 + b"\r\n", b" " + b"\x02" * 30 + b" ", b"\x00" + b"\x03" * 30 + b"\x00", b"\x1a" * 32]
+    for last in (0x0a, 0x0d, 0x20, 0x00):
+        i = 0
+        while True:
+            sd = hashlib.sha256(b"c19 %d %d" % (last, i)).digest()
+            if ed_pub(sd)[-1] == last:
+                special.append(sd)
+                break
+            i += 1
+    seeds = special + [bytes.fromhex(v[0]) for v in R.VECTORS] + [bytes(32), b"\xff" * 32, bytes(range(32))] + [rng.randbytes(32) for _ in range(n)]
     msgs = [bytes.fromhex(v[2]) for v in R.VECTORS] + [b"", b"\x00", b"a" * 64, b"\xff" * 200] + [rng.randbytes(rng.randint(0, 300)) for _ in range(n)]
     cases = []
     # (1) the public key the library derives, the hex it files under, the signatures it makes = RFC 8032
@@ -22,7 +33,7 @@ def run(ctx):
         cases.append({"w": wire.case("pub_of_seed", sd, None), "meta": {"k": "pub", "seed": sd.hex()}})
         cases.append({"w": wire.case("sign_raw", sd, m), "meta": {"k": "sign", "seed": sd.hex(), "msg": m.hex()}})
         cases.append({"w": wire.case("public_key_of", Ed25519PrivateKey.from_private_bytes(sd)), "meta": {"k": "pubobj", "seed": sd.hex()}})
-        if i < (12 if ctx.quick else 200):
+        if i < (22 if ctx.quick else 200):
             pl = J.rand_json(rng, depth=2) if i % 3 else {"name": "pkg", "n": i}
             try:
                 E.canon(pl)
@@ -31,6 +42,15 @@ def run(ctx):
             cases.append({"w": wire.case("serialize_and_sign", pl, Ed25519PrivateKey.from_private_bytes(sd)), "meta": {"k": "libsign", "seed": sd.hex()}})
             cases.append({"w": wire.case("sign_sequence", pl, [sd]), "meta": {"k": "filed", "seed": sd.hex()}})
             cases.append({"w": wire.case("keyfile_roundtrip", sd), "meta": {"k": "files", "seed": sd.hex()}})
+    # (1b) signing an envelope that already holds entries under other notations of the signer's key (and other keys):
+    # the new signature is filed under the canonical hex, nothing else changes
+    for sd in seeds[:6]:
+        ph = ed_pub(sd).hex()
+        pl = {"n": 1, "s": "é"}
+        for pre in ({ph.upper(): {"signature": "00" * 64}}, {ph + "\n": E.raw_sig(0, pl), " " + ph: 5}, {E.mixcase(ph): {"signature": "11" * 64}, ph: {"signature": "22" * 64}},
+                    {ph[:-1] + "\n": {"signature": "33" * 64}}, {"junk": None}):
+            cases.append({"w": wire.case("sign_signable", {"signatures": dict(pre), "signed": pl}, Ed25519PrivateKey.from_private_bytes(sd)),
+                          "meta": {"k": "filed-pre", "seed": sd.hex(), "pre": list(pre)}, "mutates": True})
     # (2) conversions, every order, both classes
     for sd in seeds[: (10 if ctx.quick else 100)]:
         pub = ed_pub(sd)
@@ -94,6 +114,18 @@ def run(ctx):
             env = wire.dec(io[1:]) if io.startswith("O") else None
             if not env or list(env["signatures"]) != [R.secret_to_public(sd).hex()]:
                 return "the signature is not filed under the hex of the RFC 8032 public key of the seed"
+        elif m["k"] == "filed-pre":
+            sd = bytes.fromhex(m["seed"])
+            env = wire.dec(io[1:]) if io.startswith("O") else None
+            ph = R.secret_to_public(sd).hex()
+            pre = tup[1]["signatures"]
+            if not env or env["signatures"].get(ph) != {"signature": R.sign(sd, E.canon(tup[1]["signed"])).hex()}:
+                return "the new signature is not filed under the canonical hex of the signer's RFC 8032 public key"
+            for k, v in pre.items():
+                if k != ph and (k not in env["signatures"] or wire.enc(env["signatures"][k]) != wire.enc(v)):
+                    return "signing altered or removed the existing entry %r" % k
+            if set(env["signatures"]) != set(pre) | {ph}:
+                return "signing added entries other than the signer's"
         elif m["k"] == "files":
             sd = bytes.fromhex(m["seed"])
             if io != "O" + wire.enc([sd, R.secret_to_public(sd), Ed25519PrivateKey.from_private_bytes(sd), Ed25519PublicKey.from_public_bytes(R.secret_to_public(sd)), True, True]):
